@@ -103,8 +103,9 @@ type hopRec struct {
 	Panic   string  `json:"panic,omitempty"`
 	Score   int     `json:"score"`
 	Tag     string  `json:"tag,omitempty"`
-	Loaded  bool    `json:"in_storage"`     // model: a record for the key was in storage when the op began
-	Deleted bool    `json:"shadow_deleted"` // model: that record is shadow-deleted
+	Token   string  `json:"token,omitempty"` // put: token of the record handed to Put
+	Loaded  bool    `json:"in_storage"`      // model: a record for the key was in storage when the op began
+	Deleted bool    `json:"shadow_deleted"`  // model: that record is shadow-deleted
 	Got     string  `json:"got_token,omitempty"`
 	Before  rawSnap `json:"raw_before"`
 	After   rawSnap `json:"raw_after"`
@@ -140,6 +141,9 @@ type hrun struct {
 	inconcl []string
 	// template HP
 	parkRounds, cancelWhileParked int
+	// template HC
+	chainSubs []*subRun
+	chainOps  []*chainOp
 	// opMu keeps the raw snapshots (storage queries) apart from the operations of the
 	// other workers: hashmap's query executor takes storage lock -> record lock while
 	// InsertValue/MakeSecret/... take record lock -> storage lock, and the two can
@@ -204,9 +208,19 @@ func (h *hookRun) onRecord(phase string, r record.Record) (record.Record, error)
 	}
 	// the record is locked by the database system (or, for Delete, only used by the
 	// calling goroutine), so its meta may be read here
-	if h.replaces(phase, n) && r.Meta() != nil && !r.Meta().IsDeleted() {
-		nr := newRec(r.DatabaseName(), key, fmt.Sprintf("R%d.%s", h.spec.ID, token), score, tag)
-		nr.SetMeta(r.Meta().Duplicate())
+	if h.replaces(phase, n) && r.Meta() != nil && (!r.Meta().IsDeleted() || (phase == "postget" && h.spec.ReplFreshMeta)) {
+		if h.spec.ReplSetTag != "" {
+			tag = h.spec.ReplSetTag
+		}
+		nr := newRec(r.DatabaseName(), key, fmt.Sprintf("R%d.%s", h.spec.ID, token), score+h.spec.ReplAddScore, tag)
+		if h.spec.ReplFreshMeta {
+			nr.UpdateMeta()
+		} else {
+			nr.SetMeta(r.Meta().Duplicate())
+		}
+		if h.spec.ReplSecret {
+			nr.Meta().MakeSecret()
+		}
 		c.Repl = nr.Token
 		h.hr.mu.Lock()
 		h.hr.repls[nr.Token] = nr
@@ -320,12 +334,19 @@ func (wk *hworker) do(hr *hrun, op *OpSpec) {
 			}
 			return err
 		}
-	case "put":
+	case "put", "putexp":
 		wk.count++
 		nr := newRec(hr.w.db, key, fmt.Sprintf("w%d-%d", wk.spec.ID, wk.count), op.Score, op.Tag)
-		rec.Score, rec.Tag = op.Score, op.Tag
+		rec.Score, rec.Tag, rec.Token = op.Score, op.Tag, nr.Token
+		expired := op.Kind == "putexp"
+		if expired {
+			// stored, but with an absolute expiry that has long passed: still loaded by
+			// a Get (and shown to the PostGet hooks) before the validity check
+			nr.UpdateMeta()
+			nr.Meta().SetAbsoluteExpiry(time.Now().Unix() - 100000)
+		}
 		fn = func() error { return hr.iface.Put(nr) }
-		after = func() { wk.keys[key] = &hkeyState{exists: true, score: op.Score, tag: op.Tag} }
+		after = func() { wk.keys[key] = &hkeyState{exists: true, deleted: expired, score: op.Score, tag: op.Tag} }
 	case "secret":
 		fn = func() error { return wk.mod.MakeSecret(full) }
 	case "crown":
@@ -403,6 +424,10 @@ func runHooks(w *world, sc *Scenario) *hrun {
 	}
 	if sc.Plan != nil && sc.Plan.Template == "HP" {
 		hr.runPark()
+		return hr
+	}
+	if sc.Plan != nil && sc.Plan.Template == "HC" {
+		hr.runChain()
 		return hr
 	}
 	var cwg, wwg sync.WaitGroup
@@ -501,6 +526,10 @@ func (hr *hrun) witness(extra map[string]any) map[string]any {
 
 func (hr *hrun) judge(b *vlib.Batch) {
 	sc := hr.sc
+	if sc.Plan != nil && sc.Plan.Template == "HC" {
+		hr.judgeChain(b)
+		return
+	}
 	for _, m := range hr.inconcl {
 		b.Inconclusive("scenario %d (hooks): %s", sc.ID, m)
 	}
@@ -563,7 +592,7 @@ func (hr *hrun) judge(b *vlib.Batch) {
 			switch op.Kind {
 			case "get":
 				phases = []string{"preget", "postget"}
-			case "put":
+			case "put", "putexp":
 				phases = []string{"preput"}
 			default: // load-modify-put: del secret crown expiry relexpiry insert
 				phases = []string{"preget", "postget", "preput"}
@@ -587,10 +616,11 @@ func (hr *hrun) judge(b *vlib.Batch) {
 						applies = h.spec.PreGet && strings.HasPrefix(op.Key, h.spec.Prefix)
 					case "postget":
 						applies = h.spec.PostGet && op.Loaded && strings.HasPrefix(op.Key, h.spec.Prefix) && h.spec.Cond.eval(op.Score, op.Tag)
-						optional = op.Deleted
+						// a shadow-deleted or expired record is still loaded and shown
+						// to the PostGet hooks; the validity check comes after them
 					case "preput":
 						applies = h.spec.PrePut && strings.HasPrefix(op.Key, h.spec.Prefix) && h.spec.Cond.eval(op.Score, op.Tag)
-						if op.Kind != "put" {
+						if op.Kind != "put" && op.Kind != "putexp" {
 							applies = applies && op.Loaded && !op.Deleted
 						}
 					}
@@ -612,7 +642,7 @@ func (hr *hrun) judge(b *vlib.Batch) {
 					reached = phaseRank[obs[i].Phase]
 				}
 			}
-			if !op.OK && op.VetoBy < 0 && op.Kind != "get" && op.Kind != "put" {
+			if !op.OK && op.VetoBy < 0 && op.Kind != "get" && op.Kind != "put" && op.Kind != "putexp" {
 				reached = 1 // a load-modify-put that failed without veto did not come to the put part
 			}
 			seen := map[hp]int{}
@@ -641,7 +671,7 @@ func (hr *hrun) judge(b *vlib.Batch) {
 						reason = "key-mismatch"
 					case c.Phase == "postget" && !op.Loaded:
 						reason = "no-record"
-					case (op.Kind == "put" && c.Phase != "preput") || (op.Kind == "get" && c.Phase == "preput"):
+					case ((op.Kind == "put" || op.Kind == "putexp") && c.Phase != "preput") || (op.Kind == "get" && c.Phase == "preput"):
 						reason = "wrong-operation"
 					}
 					b.Violation("C14:hook-unexpected-call:"+c.Phase+":"+reason+":"+share,
